@@ -138,7 +138,7 @@ fn no_sep(s: &[u8]) -> bool {
     !s.contains(&b' ') && !s.contains(&b'\r')
 }
 
-fn gen_v1(t: &mut Tape) -> Case {
+pub fn gen_v1(t: &mut Tape) -> Case {
     // base: a valid TCP line (UNKNOWN for length / utf8 faults)
     let v6 = t.coin();
     let mut p = gen::V1Parts {
